@@ -68,14 +68,14 @@ def build_cases(ctx):
         cases += _sample(rng, H.product_cases(H.W_DIMS, "write", H.W_EXTRA), 8000 * min(ctx.widen, 2))
         cases += list(H.product_cases(H.E_DIMS, "eject", {}))
     else:
-        extra = ctx.budget(750, 6000) if ctx.widen > 1 else 0
+        extra = ctx.budget(150, 1200) if ctx.widen > 1 else 0
         if extra:
             cases += _sample(rng, H.product_cases(H.VF_DIMS, "validate", H.V_EXTRA), extra)
             cases += _sample(rng, H.product_cases(H.WF_DIMS, "write", H.W_EXTRA), extra)
             cases += _sample(rng, H.product_cases(H.V_DIMS, "validate", H.V_EXTRA), extra // 2)
             cases += _sample(rng, H.product_cases(H.W_DIMS, "write", H.W_EXTRA), extra // 2)
             cases += list(H.product_cases(H.E_DIMS, "eject", {}))
-    cases += H.cli_cases(ctx.thorough or ctx.widen > 1)
+    cases += H.cli_cases(2 if ctx.thorough else (1 if ctx.widen > 1 else 0))
     # de-duplicate, keep order
     seen, out = set(), []
     for c in cases:
@@ -196,6 +196,7 @@ def run(ctx: vlib.Ctx):
     findings = vlib.load_findings("C10")
     c20_findings = vlib.load_findings("C20")
     drv = proj.driver()
+    H.preload()
     with SB.sandbox_parent():
         try:
             if ctx.replay:
@@ -205,6 +206,11 @@ def run(ctx: vlib.Ctx):
                     if isinstance(d.get("case"), dict) and "tool" in d["case"]:
                         cases.append(d["case"])
                 ctx.notes.append(f"replay of {len(cases)} case(s) from {ctx.replay}")
+                if not cases:      # a tie-only replay (broken obligation / gate / injection): nothing to re-run but the whole check
+                    ctx.notes.append("replay file holds no tool case: running the complete check instead")
+                    ctx.replay = None
+                    replay_findings(ctx, findings)
+                    cases = build_cases(ctx)
             else:
                 replay_findings(ctx, findings)
                 cases = build_cases(ctx)
